@@ -10,7 +10,7 @@ from . import ty as T
 from .core import PYOBJ, ContractMisfit, Outcome, State, Unsupported, Val, coerce, fresh, fresh_name, lift
 from .exprs import z_and, z_not
 from .ops import is_const, z3bool
-from .stmts import IterInfo, assigned_names, header_text
+from .stmts import IterInfo, assigned_names, header_text, rebound_names
 
 TIMER_NAMES = {"Timer", "timer"}
 
@@ -61,10 +61,35 @@ class LoopMixin:
                 raise ContractMisfit(f"loop at line {node.lineno} modifies '{n}' whose type must be declared in the contract (locals)")
             h.env[n] = Val(t, fresh(t, n))
             self.assume_allocated(h, h.env[n])
-        for k in list(st.heap.keys()):
-            if k[1] in fields or "*" in fields:
-                h.heap[k] = z3.Const(fresh_name(f"H_{k[0]}_{k[1]}"), st.heap[k].sort())
+        for k in sorted(self.havoc_keys(st, fields)):
+            if k in st.heap:
+                srt = st.heap[k].sort()
+            else:
+                # a field that is first touched INSIDE the loop has no array in the state yet: it must be havocked
+                # all the same (otherwise the state after the loop would read the initial heap)
+                ft = api.CLASSES[k[0]].fields.get(k[1]) if k[0] in api.CLASSES else None
+                if ft is None:
+                    continue
+                srt = z3.ArraySort(T.RefSort, ft.sort())
+            h.heap[k] = z3.Const(fresh_name(f"H_{k[0]}_{k[1]}"), srt)
         return h
+
+    def havoc_keys(self, st, fields):
+        """heap arrays denoted by a loop's field set: entries are field NAMES (any class), (class, field) pairs,
+        or "*" (every field)."""
+        keys = set()
+        for k in st.heap:
+            if field_hit(k, fields):
+                keys.add(k)
+        for f in fields:
+            if isinstance(f, tuple):
+                keys.add(f)
+            else:
+                for cs in api.CLASSES.values():
+                    for fn in cs.fields:
+                        if f == "*" or fn == f:
+                            keys.add((cs.name, fn))
+        return keys
 
     def check_havoc_complete(self, before: State, after: State, names, fields, node, collect=None):
         """Everything the body changed must have been havocked.  With `collect` (discovery pass) the
@@ -88,15 +113,17 @@ class LoopMixin:
                 continue
             raise ContractMisfit(f"internal: loop at line {node.lineno} changes '{k}' which was not havocked")
         for k, arr in after.heap.items():
-            if k[1] in fields or "*" in fields:
-                continue
             b = before.heap.get(k)
             if b is not None and z3.eq(arr, b):
                 continue
             if b is None and arr.decl().name().startswith("H0_"):
                 continue
+            if collect is not None and len(collect) > 3:
+                collect[3].add(k)  # every heap array the body actually writes (for narrowing the havoc set)
+            if field_hit(k, fields):
+                continue
             if collect is not None:
-                collect[1].add(k[1])
+                collect[1].add(k)
                 continue
             raise ContractMisfit(f"internal: loop at line {node.lineno} writes heap field {k} which was not havocked")
         if after.alloc is not None and (before.alloc is None or not z3.eq(after.alloc, before.alloc)):
@@ -111,7 +138,7 @@ class LoopMixin:
             n_ob = len(self.obligations)
             names_snapshot = dict(self._names)
             pend = self.pending
-            found = (set(), set(), set())
+            found = (set(), set(), set(), set())
             try:
                 run_body(found)
             finally:
@@ -121,10 +148,28 @@ class LoopMixin:
             new_n = found[0] - names
             new_f = found[1] - fields
             if not new_n and not new_f:
+                self.last_written = found[3]
                 return bool(found[2])
             names |= new_n
             fields |= new_f
         raise ContractMisfit("loop modification set did not stabilise")
+
+    def narrow_fields(self, fields):
+        """After discovery: the loop's havoc set becomes exactly the heap arrays (class, field) that the body was
+        SEEN to write on some path (field names from the syntactic scan denote that field in every class, which
+        forgets far too much).  Sound: the final pass re-checks that every array the body changes is in the set."""
+        if "*" in fields:
+            return set(fields)
+        return set(self.last_written)
+
+    def drop_object_names(self, names, body, st, extra=()):
+        """`obj[k] = v` / `obj.append(x)` on a local that holds an OBJECT reference does not rebind the local: the
+        effect is a heap write (found by the discovery pass), the reference itself survives the loop."""
+        rb = rebound_names(body) | set(extra)
+        for n in list(names):
+            v = st.env.get(n)
+            if n not in rb and v is not None and not v.is_py and isinstance(v.ty, T.Ref):
+                names.discard(n)
 
     def ghost_assigned(self, body):
         out = set()
@@ -144,6 +189,7 @@ class LoopMixin:
         names, fields = set(), set()
         for c in calls:
             key = None
+            implicit = 0
             f = c.func
             try:
                 if isinstance(f, ast.Name) and f.id not in st.env:
@@ -155,9 +201,11 @@ class LoopMixin:
                 elif isinstance(f, ast.Attribute) and isinstance(f.value, ast.Name) and f.value.id in st.env:
                     rv = st.env[f.value.id]
                     if rv is not None and isinstance(rv.ty, T.Ref):
-                        m = self.find_method(self.class_of(rv.ty), f.attr)
+                        m, kind = self.find_method_ex(self.class_of(rv.ty), f.attr)
                         if isinstance(m, str):
                             key = m
+                            # (a callable key registered by hand in `methods=` routes the call itself: no offset)
+                            implicit = 0 if (kind == "static" or callable(m)) else 1
                         elif m is not None:
                             eff = getattr(m, "modifies", None)
                             if eff:
@@ -174,7 +222,7 @@ class LoopMixin:
                         from .extract import load_function
 
                         src = load_function(cc.target)
-                        pn = [x.arg for x in src.fdef.args.posonlyargs + src.fdef.args.args]
+                        pn = [x.arg for x in src.fdef.args.posonlyargs + src.fdef.args.args][implicit:]
                         an = None
                         if m in pn and pn.index(m) < len(c.args):
                             an = c.args[pn.index(m)]
@@ -232,6 +280,7 @@ class LoopMixin:
             raise Unsupported(f"loop iterates '{root.id}' while mutating it", node)
         if isinstance(root, ast.Attribute) and root.attr in fields:
             raise Unsupported(f"loop iterates field '{root.attr}' while mutating it", node)
+        self.drop_object_names(names, node.body, st, tn)
         ix = spec.index or f"_ghost_i{node.lineno}"
         dn = spec.done or f"_ghost_done{node.lineno}"
         for g in (spec.index, spec.done, spec.seq):
@@ -302,6 +351,7 @@ class LoopMixin:
             return out_res
 
         alloc_changes[0] = self.discover_mods(iteration, names, fields)
+        fields = self.narrow_fields(fields)
         res += iteration()
         # 3. exit by exhaustion
         e = self.havoc(st, names - tn, fields, spec, node, alloc=alloc_changes[0])
@@ -359,6 +409,7 @@ class LoopMixin:
         cn, cf = self.callee_effects(calls, st)
         names |= cn
         fields |= cf
+        self.drop_object_names(names, node.body, st)
         for nm, src in self.inv_items(spec):
             self.oblige(st, self.clause(src, st), "inv.init", f"{nm}@L{node.lineno}", node, info={"clause": src})
         res = []
@@ -406,6 +457,7 @@ class LoopMixin:
             return out_res
 
         alloc_changes[0] = self.discover_mods(iteration, names, fields)
+        fields = self.narrow_fields(fields)
         res += iteration()
         c, h = state["c"], state["h"]
         outs = []
@@ -534,6 +586,7 @@ class LoopMixin:
             self.spec_mode = False
         old = st.copy()
         self.old_state = None
+        self.entry_state = old
         rebound = {n for n in assigned_names(fdef.body)[0]}
         for m in c.modifies:
             if "." not in m and m in rebound and self.param_is_rebound(fdef, m):
@@ -596,6 +649,10 @@ class LoopMixin:
             if isinstance(n, ast.AugAssign) and isinstance(n.target, ast.Name) and n.target.id == name:
                 return True
         return False
+
+
+def field_hit(k, fields):
+    return k in fields or k[1] in fields or "*" in fields
 
 
 def Closure_types():
